@@ -72,6 +72,9 @@ def make_grid(jmax0, imax0, N=3, h="flat", hval=100.0, mask="none", dx=1000.0,
         M = np.ones((jmax0, imax0))
         if mask == "coast":
             M[:, : max(2, imax0 // 4)] = 0
+        elif mask == "shore":  # land reaches one cell into the valid region of the full grid, ragged edge
+            M[:, :3] = 0
+            M[rng.integers(0, jmax0, max(1, jmax0 // 3)), 3] = 0
         elif mask == "islands":
             k = max(1, (jmax0 * imax0) // 12)
             J = rng.integers(2, jmax0 - 2, k)
